@@ -113,6 +113,27 @@ func c19Bodies() []c19Body {
 			return model.Dump(t)
 		}})
 	}
+	// a target that knows only a few members: everything else (nested objects, arrays, strings) is skipped
+	type partial struct {
+		In struct {
+			A string `struct:"a"`
+		} `struct:"in"`
+		Extra int `struct:"extra"`
+	}
+	for _, cd := range codecs {
+		cd := cd
+		out = append(out, c19Body{name: "Parse(" + cd.Name + ")->Unfold(partial struct, unknown members skipped)", run: func(_ *gotype.Iterator, _ *bytes.Buffer) string {
+			var t partial
+			u, err := gotype.NewUnfolder(&t)
+			if err != nil {
+				return "error: " + err.Error()
+			}
+			if err := cd.Parse(c19Docs[cd], u); err != nil {
+				return "error: " + err.Error()
+			}
+			return model.Dump(t)
+		}})
+	}
 	out = append(out, c19Body{name: "Fold->cborl->Parse->Unfold(c19Nested)", run: func(_ *gotype.Iterator, buf *bytes.Buffer) string {
 		if err := gotype.Fold(c19Values[6], codecCBOR.NewEnc(buf, 0)); err != nil {
 			return "error: " + err.Error()
